@@ -760,6 +760,12 @@ func Scenarios(thorough bool) []harness.Scenario {
 		Jobs: []Job{{Queue: 0, Kernel: true, Off: 0, Len: 70}, {Queue: 1, Kernel: true, Off: 256, Len: 66}, {Queue: 0, Off: 0, Len: 70}, {Queue: 1, Off: 255, Len: 68}}}, bound)
 	add(Cfg{Name: "b/1gpu/sibling-contexts/kernel-then-d2h", NGPU: 1, Pages: 1, MaxReq: 4, QueueCtx: []int{0, 1},
 		Jobs: []Job{{Queue: 0, Kernel: true, Off: 3, Len: 61}, {Queue: 1, Kernel: true, Off: 128, Len: 64}, {Queue: 0, Off: 3, Len: 61}, {Queue: 1, Off: 128, Len: 64}}}, bound)
+	// a kernel launched on GPU 1 writes a range that continues in GPU 2's memory (its stores sit dirty in GPU 2's
+	// cache, where no kernel was launched), then the range is read back: the flush must reach every GPU (seed C11-8)
+	add(Cfg{Name: "b/2gpu/kernel-on-gpu1-writes-gpu2-memory-then-d2h", NGPU: 2, Pages: 2, MaxReq: 4,
+		Jobs: []Job{{Queue: 0, H2D: true, Off: BPage - 20, Len: 40}, {Queue: 0, Kernel: true, Off: BPage - 8, Len: 16}, {Queue: 0, Off: BPage - 20, Len: 40}}}, bound)
+	add(Cfg{Name: "b/3gpu/kernel-writes-all-three-memories-then-d2h/4KiB-pages", NGPU: 3, Pages: 3, MaxReq: 4, Log2Page: 12,
+		Jobs: []Job{{Queue: 0, Kernel: true, Off: 4096 - 4, Len: 4096 + 8}, {Queue: 0, Off: 4096 - 4, Len: 4096 + 8}}}, 1)
 	// sustained back-pressure below the DMA engine: copies of more transactions than the engine's outgoing buffer
 	// holds (64) against a memory that takes one transaction per 4 cycles; two queues keep several requests in flight
 	add(Cfg{Name: "b/1gpu/slow-memory4/8KiB-page", NGPU: 1, Pages: 1, MaxReq: 4, Log2Page: 13, SlowMem: 4,
